@@ -61,7 +61,7 @@ fn canon_inv(r: Vec<dijkstra_spi::Spi>) -> Result<Canon, String> {
     Ok(v)
 }
 
-pub const FNS: [&str; 5] = ["all_pairs", "multi_source", "involving", "betweenness", "closeness"];
+pub const FNS: [&str; 8] = ["all_pairs", "multi_source", "involving", "betweenness", "closeness", "all_pairs_target", "all_pairs_cutoff_first", "multi_source_subset"];
 
 fn call(g: &G, f: &str, weighted: bool) -> Result<Canon, String> {
     let names: Vec<i32> = g.get_all_node_names().into_iter().copied().collect();
@@ -69,6 +69,10 @@ fn call(g: &G, f: &str, weighted: bool) -> Result<Canon, String> {
         "all_pairs" => canon_ap(dijkstra::all_pairs(g, weighted, None, None, false, true)),
         "multi_source" => canon_ap(dijkstra::multi_source(g, weighted, names, None, None, false, true)),
         "involving" => canon_inv(dijkstra::get_all_shortest_paths_involving(g, *names.get(names.len() / 2).unwrap_or(&0), weighted)),
+        // option variants: the parallel closures have their own handling of target / cutoff / first_only
+        "all_pairs_target" => canon_ap(dijkstra::all_pairs(g, weighted, names.get(names.len() / 3).copied(), None, false, true)),
+        "all_pairs_cutoff_first" => canon_ap(dijkstra::all_pairs(g, weighted, None, Some(if weighted { 0.9 } else { 2.0 }), true, true)),
+        "multi_source_subset" => canon_ap(dijkstra::multi_source(g, weighted, names.iter().step_by(3).copied().collect(), names.last().copied(), Some(if weighted { 1.5 } else { 3.0 }), false, true)),
         "betweenness" => canon_map(betweenness::betweenness_centrality(g, weighted, true)),
         "closeness" => canon_map(closeness::closeness_centrality(g, weighted, true)),
         _ => unreachable!(),
